@@ -243,10 +243,14 @@ pub const LEN_VARIANTS: u64 = 10;
 /// variant 0: exactly framed; 1: exactly framed and padded (P, last byte 4); 2 and 3: the real length is that of
 /// the length field with one bit flipped (a lost or invented carry); 4, 5: one word longer / shorter; 6: exactly
 /// framed, P set, final byte 0; 7: the exact length plus 65536 words; 8: bit 8 of the length flipped; 9: its bytes swapped
+pub const LEN_PTS: [u8; 8] = [200, 201, 202, 203, 204, 205, 206, 207];
+
+/// index -> (length field, variant, packet type): every typed parser sees every length field in every variant
 pub fn len_case(lfs: &[u16], i: u64) -> LenCase {
+    let pt = LEN_PTS[(i % 8) as usize];
+    let i = i / 8;
     let lf = lfs[(i / LEN_VARIANTS) as usize % lfs.len()];
     let v = i % LEN_VARIANTS;
-    let pt = [200u8, 201, 202, 203, 204, 205, 206, 207][(lf as usize + v as usize) % 8];
     let words = lf as u32 + 1;
     let (len, p, last) = match v {
         0 => (4 * words, false, 0),
@@ -290,13 +294,13 @@ pub fn len_fields_small() -> Vec<u16> {
 
 pub fn len_leg_small(oracle: Oracle<LenCase>) -> Box<dyn Leg> {
     let lfs = std::sync::Arc::new(len_fields_small());
-    let n = lfs.len() as u64 * LEN_VARIANTS;
+    let n = lfs.len() as u64 * LEN_VARIANTS * 8;
     Box::new(SweepLeg { name: "every-length-field", n, at: Box::new(move |i| len_case(&lfs, i)), oracle, exhaustive: false })
 }
 
 pub fn len_leg(tier: Tier, oracle: Oracle<LenCase>) -> Box<dyn Leg> {
     let lfs = std::sync::Arc::new(len_fields(tier));
-    let n = lfs.len() as u64 * LEN_VARIANTS;
+    let n = lfs.len() as u64 * LEN_VARIANTS * 8;
     Box::new(SweepLeg { name: "every-length-field", n, at: Box::new(move |i| len_case(&lfs, i)), oracle, exhaustive: tier == Tier::Thorough })
 }
 
